@@ -78,7 +78,40 @@ def regenerate(cdir, which=("tables",)):
             gen_tables.write_if_changed(os.path.join(cdir, "Tables.v"), text)
         except gen_tables.TranslatorError as e:
             errs.append(("gen_tables", str(e)))
+    if "lockcfg" in which:
+        import gen_lockcfg
+        try:
+            text, side = gen_lockcfg.generate(REPO)
+            gen_lockcfg_write(cdir, text, side)
+        except gen_lockcfg.TranslatorError as e:
+            errs.append(("gen_lockcfg", str(e)))
     return errs
+
+def gen_lockcfg_write(cdir, text, side):
+    p = os.path.join(cdir, "LockCfg.v")
+    if not os.path.exists(p) or open(p).read() != text:
+        open(p, "w").write(text)
+    json.dump(side, open(os.path.join(cdir, "LockCfg.json"), "w"), indent=1)
+
+def lock_diagnosis(cdir, kinds=("balance", "order", "guard"), threadsafe_only=False):
+    """errors found by the Python mirror of the checker, filtered"""
+    try:
+        side = json.load(open(os.path.join(cdir, "LockCfg.json")))
+    except Exception:
+        return [], {}
+    out = []
+    ts = set(side.get("threadsafe", [])) | set(side.get("thread_mains", []))
+    for entry, errs in side.get("errors_per_entry", {}).items():
+        if threadsafe_only and entry not in ts: continue
+        for e in errs:
+            w = e["what"]
+            is_guard = w.startswith("access to")
+            if is_guard and "guard" not in kinds: continue
+            if not is_guard and "balance" not in kinds: continue
+            out.append({"entry": entry, "what": w, "call_chain": e["chain"]})
+    for cyc in side.get("cycles", []):
+        if "order" in kinds: out.append({"entry": "*", "what": "lock order cycle " + " -> ".join(cyc), "call_chain": []})
+    return out, side
 
 def coq_make(cdir, targets, timeout=1500):
     """make the given .vo targets (and their deps). Returns (ok, log)."""
